@@ -614,6 +614,10 @@ bool expression_t::equal(const expression_t& e) const
         return true;
     }
 
+    if (empty() || e.empty()) {
+        return false;
+    }
+
     if (get_size() != e.get_size() || data->kind != e.data->kind ||
         !std::visit(ValueTypeEquality{}, data->value, e.data->value) || data->symbol != e.data->symbol) {
         return false;
